@@ -232,6 +232,29 @@ class TaskScenario(ScenarioData):
 
         return successors
 
+    def _gapToSuccessor(self, successor: Any) -> float:
+        """
+        Largest gapduration (in hours) the successor requests on its finish-to-start
+        dependency on this task; 0 if none.
+        """
+        gap_hours = 0.0
+        succ_scenario = successor.data[self.scenarioIdx] if successor.data else None
+        deps = succ_scenario.getAllDependencies() if succ_scenario is not None else []
+        for dep in deps:
+            if isinstance(dep, dict):
+                pred = dep.get("task")
+                gapduration = dep.get("gapduration")
+                onstart = dep.get("onstart", False)
+            elif hasattr(dep, "task"):
+                pred = dep.task
+                gapduration = getattr(dep, "gapduration", None)
+                onstart = getattr(dep, "onstart", False)
+            else:
+                continue
+            if pred is self.property and gapduration and not onstart:
+                gap_hours = max(gap_hours, self._parse_duration(gapduration))
+        return gap_hours
+
     def _getSuccessorsWithMaxGap(self) -> list[tuple[Any, Any, Any]]:
         """
         Get successors that have maxgapduration constraint on this task.
@@ -568,8 +591,15 @@ class TaskScenario(ScenarioData):
                     successors = self._getSuccessors()
                     for successor in successors:
                         succ_start = successor.get("start", self.scenarioIdx)
-                        if succ_start and succ_start < latest_end:
-                            latest_end = succ_start
+                        if succ_start:
+                            # The successor asked for a gap after this task: end that much earlier
+                            gap_hours = self._gapToSuccessor(successor)
+                            if gap_hours:
+                                from datetime import timedelta
+
+                                succ_start = succ_start - timedelta(hours=gap_hours)
+                            if succ_start < latest_end:
+                                latest_end = succ_start
 
                     end_date = latest_end
 
